@@ -1,5 +1,5 @@
 (* C15 property theorems: statements + `exact lemma` only. *)
-From CJ Require Import Common.Base C15.Model C15.Proofs C15.ModelName C15.ProofsName.
+From CJ Require Import Common.Base C15.Model C15.Proofs C15.ModelName C15.ProofsName C15.ModelObf C15.ProofsObf.
 
 Theorem C15_request_format_roundtrip :
   forall p e, add_request_format p = Some e -> remove_request_format e = Some p.
@@ -77,3 +77,75 @@ Theorem C15_request_name_error_iff :
     ~ (Forall (fun l => 1 <= blen l <= 63) dom /\ name_wire_len (chunks 63 (lower (b32enc p)) ++ dom) <= 255).
 Proof. exact request_name_error_iff. Qed.
 Print Assumptions C15_request_name_error_iff.
+
+(* ---- tag obfuscators (randomness is an explicit argument) ---- *)
+Theorem C15_byte_fact : forall n r, r < 64 -> N.land (N.lor r (N.land 192 n)) 63 = r.
+Proof. exact clear_randomize_hi. Qed.
+Print Assumptions C15_byte_fact.
+
+Theorem C15_xor_obfuscate_reveal :
+  forall r t c, length r = length t -> xor_obfuscate r t = Some c -> xor_reveal c = Some t.
+Proof. exact xor_obfuscate_reveal. Qed.
+Print Assumptions C15_xor_obfuscate_reveal.
+
+Theorem C15_xor_rejects_empty : forall r, xor_obfuscate r [] = None.
+Proof. exact xor_rejects_empty. Qed.
+Print Assumptions C15_xor_rejects_empty.
+
+Theorem C15_xor_accepts_nonempty : forall r t, t <> [] -> exists c, xor_obfuscate r t = Some c.
+Proof. exact xor_accepts_nonempty. Qed.
+Print Assumptions C15_xor_accepts_nonempty.
+
+Theorem C15_xor_fresh :
+  forall r1 r2 t c1 c2, length r1 = length t -> length r2 = length t -> r1 <> r2 ->
+    xor_obfuscate r1 t = Some c1 -> xor_obfuscate r2 t = Some c2 -> c1 <> c2.
+Proof. exact xor_fresh. Qed.
+Print Assumptions C15_xor_fresh.
+
+Theorem C15_nil_obfuscate_reveal : forall t c, nil_obfuscate t = Some c -> nil_reveal c = Some t.
+Proof. exact nil_obfuscate_reveal. Qed.
+Print Assumptions C15_nil_obfuscate_reveal.
+
+Theorem C15_ctr_obfuscate_reveal :
+  forall sbm r2p x sha ctr seal open pub_of, crypto_laws sbm r2p x ctr seal open pub_of ->
+  forall r k t c, ctr_obfuscate sbm x sha ctr r t (pub_of k) = Some c -> ctr_reveal r2p x sha ctr c k = Some t.
+Proof. exact ctr_obfuscate_reveal_b. Qed.
+Print Assumptions C15_ctr_obfuscate_reveal.
+
+Theorem C15_gcm_obfuscate_reveal :
+  forall sbm r2p x sha ctr seal open pub_of, crypto_laws sbm r2p x ctr seal open pub_of ->
+  forall r k t c, gcm_obfuscate sbm x sha seal r t (pub_of k) = Some c -> gcm_reveal r2p x sha open c k = Some t.
+Proof. exact gcm_obfuscate_reveal_b. Qed.
+Print Assumptions C15_gcm_obfuscate_reveal.
+
+Theorem C15_gcm_encoding_length :
+  forall sbm r2p x sha ctr seal open pub_of, crypto_laws sbm r2p x ctr seal open pub_of ->
+  forall r spk t c, gcm_obfuscate sbm x sha seal r t spk = Some c -> blen c = 48 + blen t.
+Proof. exact gcm_encoding_length_b. Qed.
+Print Assumptions C15_gcm_encoding_length.
+
+Theorem C15_ctr_fresh :
+  forall sbm r2p x sha ctr seal open pub_of, crypto_laws sbm r2p x ctr seal open pub_of ->
+  forall r1 r2 spk t c1 c2,
+    ctr_obfuscate sbm x sha ctr r1 t spk = Some c1 -> ctr_obfuscate sbm x sha ctr r2 t spk = Some c2 ->
+    obf_header sbm r1 <> obf_header sbm r2 -> c1 <> c2.
+Proof. exact ctr_fresh_b. Qed.
+Print Assumptions C15_ctr_fresh.
+
+Theorem C15_gcm_fresh :
+  forall sbm r2p x sha ctr seal open pub_of, crypto_laws sbm r2p x ctr seal open pub_of ->
+  forall r1 r2 spk t c1 c2,
+    gcm_obfuscate sbm x sha seal r1 t spk = Some c1 -> gcm_obfuscate sbm x sha seal r2 t spk = Some c2 ->
+    obf_header sbm r1 <> obf_header sbm r2 -> c1 <> c2.
+Proof. exact gcm_fresh_b. Qed.
+Print Assumptions C15_gcm_fresh.
+
+Theorem C15_header_differs :
+  forall sbm r2p x ctr seal open pub_of, crypto_laws sbm r2p x ctr seal open pub_of ->
+  forall r1 r2 a1 p1 q1 a2 p2 q2,
+    first_representable sbm (or_cands r1) = Some (a1, p1, q1) ->
+    first_representable sbm (or_cands r2) = Some (a2, p2, q2) ->
+    q1 <> q2 \/ N.land 192 (or_byte r1) <> N.land 192 (or_byte r2) ->
+    obf_header sbm r1 <> obf_header sbm r2.
+Proof. exact header_differs_b. Qed.
+Print Assumptions C15_header_differs.
